@@ -2080,6 +2080,12 @@ def compose_stream(ctx, cirq, n):
                 # function head that sympy's simplifier collapses (Abs(Abs(b)) = Abs(b)); outside the model, judged by the law only
                 d = ctx.cov.setdefault('distribution', {}).setdefault('compose', {})
                 d['outside_model_judged_by_law'] = d.get('outside_model_judged_by_law', 0) + 1
+            elif not explained and not r2 and comp is not None and dict(comp.param_dict) == dict(make_resolver(cirq, r1).param_dict):
+                # cirq.resolve_parameters(value, <empty resolver>) returns the value itself: the composed resolver is r1 as given, while the
+                # model writes r1's values resolved once more; the two dictionaries resolve every bound symbol alike (the law was just
+                # checked on each of them), so there is nothing to report
+                d = ctx.cov.setdefault('distribution', {}).setdefault('compose', {})
+                d['empty_second_resolver_identity'] = d.get('empty_second_resolver_identity', 0) + 1
             elif not explained:
                 ctx.mark_broken('correspondence:compose', f'model and implementation differ on the composition of {dict(r1)} and {dict(r2)}: implementation {got}')
 
